@@ -4,6 +4,7 @@ import (
 	"fmt"
 	"go/token"
 	"go/types"
+	"sort"
 	"strings"
 
 	"golang.org/x/tools/go/ssa"
@@ -521,117 +522,128 @@ func c09DatagramNotDropped(c *Ctx, r *Report, rule string) {
 		return
 	}
 	n := 0
-	for _, b := range fn.Blocks {
-		for _, in := range b.Instrs {
-			sel, ok := in.(*ssa.Select)
-			if !ok {
-				continue
-			}
-			sendIdx := -1
-			for i, st := range sel.States {
-				if st.Dir == types.SendOnly {
-					if _, _, f, ok := fieldAddr(func() ssa.Value {
-						if ld, ok := st.Chan.(*ssa.UnOp); ok {
-							return ld.X
-						}
-						return st.Chan
-					}()); ok && f == "readCh" {
-						sendIdx = i
-					}
-				}
-			}
-			if sendIdx < 0 {
-				continue // not the hand-over select
-			}
-			// the case bodies: follow the index tests behind the select
-			var idx ssa.Value
-			for _, ref := range *sel.Referrers() {
-				if ex, ok := ref.(*ssa.Extract); ok && ex.Index == 0 {
-					idx = ex
-				}
-			}
-			if idx == nil {
-				r.bad(rule, fnName, "hand-over select", c.ipos(sel), "undecided: the select's case index is not used")
-				continue
-			}
-			bodies := map[int]*ssa.BasicBlock{}
-			cur := sel.Block()
-			for steps := 0; steps < 8 && cur != nil; steps++ {
-				ifi, ok := cur.Instrs[len(cur.Instrs)-1].(*ssa.If)
+	// the loop itself and the functions of the package it calls in place (the hand-over may be a method of the
+	// association: there, returning to the caller is going on to the next round)
+	var cands []*ssa.Function
+	for g := range c.reachSync(fn) {
+		if g.Pkg == fn.Pkg {
+			cands = append(cands, g)
+		}
+	}
+	sort.Slice(cands, func(i, j int) bool { return fname(cands[i]) < fname(cands[j]) })
+	for _, g := range cands {
+		for _, b := range g.Blocks {
+			for _, in := range b.Instrs {
+				sel, ok := in.(*ssa.Select)
 				if !ok {
-					break
-				}
-				bo, ok := ifi.Cond.(*ssa.BinOp)
-				if !ok || bo.Op != token.EQL || bo.X != idx {
-					break
-				}
-				k, ok := constInt(bo.Y)
-				if !ok {
-					break
-				}
-				bodies[int(k)] = cur.Succs[0]
-				cur = cur.Succs[1]
-			}
-			if _, has := bodies[len(sel.States)-1]; !has && cur != nil {
-				bodies[len(sel.States)-1] = cur // the last case is the final else
-			}
-			isPut := func(x ssa.Instruction) bool {
-				ci, ok := x.(ssa.CallInstruction)
-				if !ok {
-					return false
-				}
-				kind, _, _ := poolOp(ci)
-				return kind == "put"
-			}
-			// the next round: any block that receives from the reader's queue again (the outer select) - found as a
-			// select other than this one
-			nextRound := func(x ssa.Instruction) bool {
-				s2, ok := x.(*ssa.Select)
-				return ok && s2 != sel
-			}
-			for k, st := range sel.States {
-				if k == sendIdx {
 					continue
 				}
-				n++
-				body := bodies[k]
-				name := fmt.Sprintf("hand-over select, case %d", k)
-				_ = st
-				if body == nil {
-					r.bad(rule, fnName, name, c.ipos(sel), "undecided: the body of this case was not found")
-					continue
-				}
-				var leak ssa.Instruction
-				if len(body.Instrs) > 0 {
-					seen := map[*ssa.BasicBlock]bool{body: true}
-					work := []*ssa.BasicBlock{body}
-					for len(work) > 0 && leak == nil {
-						bb := work[len(work)-1]
-						work = work[:len(work)-1]
-						blocked := false
-						for _, x := range bb.Instrs {
-							if isPut(x) {
-								blocked = true
-								break
+				sendIdx := -1
+				for i, st := range sel.States {
+					if st.Dir == types.SendOnly {
+						if _, _, f, ok := fieldAddr(func() ssa.Value {
+							if ld, ok := st.Chan.(*ssa.UnOp); ok {
+								return ld.X
 							}
-							if nextRound(x) || isReturn(x) {
-								leak = x
-								break
-							}
-						}
-						if blocked || leak != nil {
-							continue
-						}
-						for _, su := range bb.Succs {
-							if !seen[su] {
-								seen[su] = true
-								work = append(work, su)
-							}
+							return st.Chan
+						}()); ok && f == "readCh" {
+							sendIdx = i
 						}
 					}
 				}
-				r.check(leak == nil, rule, fnName, name, c.ipos(sel), "the datagram's buffer is returned to the pool before the loop goes on",
-					"this case of the hand-over select goes on to the next round of the loop without queueing the datagram in hand and without returning its buffer: the datagram disappears from its client's stream (and its buffer is never reused)")
+				if sendIdx < 0 {
+					continue // not the hand-over select
+				}
+				// the case bodies: follow the index tests behind the select
+				var idx ssa.Value
+				for _, ref := range *sel.Referrers() {
+					if ex, ok := ref.(*ssa.Extract); ok && ex.Index == 0 {
+						idx = ex
+					}
+				}
+				if idx == nil {
+					r.bad(rule, fnName, "hand-over select", c.ipos(sel), "undecided: the select's case index is not used")
+					continue
+				}
+				bodies := map[int]*ssa.BasicBlock{}
+				cur := sel.Block()
+				for steps := 0; steps < 8 && cur != nil; steps++ {
+					ifi, ok := cur.Instrs[len(cur.Instrs)-1].(*ssa.If)
+					if !ok {
+						break
+					}
+					bo, ok := ifi.Cond.(*ssa.BinOp)
+					if !ok || bo.Op != token.EQL || bo.X != idx {
+						break
+					}
+					k, ok := constInt(bo.Y)
+					if !ok {
+						break
+					}
+					bodies[int(k)] = cur.Succs[0]
+					cur = cur.Succs[1]
+				}
+				if _, has := bodies[len(sel.States)-1]; !has && cur != nil {
+					bodies[len(sel.States)-1] = cur // the last case is the final else
+				}
+				isPut := func(x ssa.Instruction) bool {
+					ci, ok := x.(ssa.CallInstruction)
+					if !ok {
+						return false
+					}
+					kind, _, _ := poolOp(ci)
+					return kind == "put"
+				}
+				// the next round: any block that receives from the reader's queue again (the outer select) - found as a
+				// select other than this one
+				nextRound := func(x ssa.Instruction) bool {
+					s2, ok := x.(*ssa.Select)
+					return ok && s2 != sel
+				}
+				for k, st := range sel.States {
+					if k == sendIdx {
+						continue
+					}
+					n++
+					body := bodies[k]
+					name := fmt.Sprintf("hand-over select, case %d", k)
+					_ = st
+					if body == nil {
+						r.bad(rule, fnName, name, c.ipos(sel), "undecided: the body of this case was not found")
+						continue
+					}
+					var leak ssa.Instruction
+					if len(body.Instrs) > 0 {
+						seen := map[*ssa.BasicBlock]bool{body: true}
+						work := []*ssa.BasicBlock{body}
+						for len(work) > 0 && leak == nil {
+							bb := work[len(work)-1]
+							work = work[:len(work)-1]
+							blocked := false
+							for _, x := range bb.Instrs {
+								if isPut(x) {
+									blocked = true
+									break
+								}
+								if nextRound(x) || isReturn(x) {
+									leak = x
+									break
+								}
+							}
+							if blocked || leak != nil {
+								continue
+							}
+							for _, su := range bb.Succs {
+								if !seen[su] {
+									seen[su] = true
+									work = append(work, su)
+								}
+							}
+						}
+					}
+					r.check(leak == nil, rule, fnName, name, c.ipos(sel), "the datagram's buffer is returned to the pool before the loop goes on",
+						"this case of the hand-over select goes on to the next round of the loop without queueing the datagram in hand and without returning its buffer: the datagram disappears from its client's stream (and its buffer is never reused)")
+				}
 			}
 		}
 	}
